@@ -1,4 +1,4 @@
 SPECIFICATION Spec
-CONSTANTS MaxLen = 4 CopyOnCompute = "once"
+CONSTANTS MaxLen = 4 Classes <- QuickClasses CopyOnCompute = "once"
 INVARIANT Fresh
 CHECK_DEADLOCK FALSE
